@@ -14,6 +14,7 @@ import (
 	"cuelang.org/go/cue/format"
 	"cuelang.org/go/verifh/canon"
 	"cuelang.org/go/verifh/corpus"
+	"cuelang.org/go/verifh/dgen"
 	"cuelang.org/go/verifh/evid"
 	"cuelang.org/go/verifh/pgen"
 	"pgregory.net/rapid"
@@ -22,6 +23,7 @@ import (
 var excl = os.Getenv("VERIF_MODE") != "replay"
 
 type Case struct {
+	Witness string // concrete data the program admits (a struct literal), "" if unknown
 	Src     string
 	Profile string // def all final concrete docs
 	Path    string // sub-value to print ("" = root)
@@ -100,10 +102,27 @@ func run(c Case) (res evid.Result) {
 	default:
 		j1, e1 := v.MarshalJSON()
 		j2, e2 := w.MarshalJSON()
-		if (e1 == nil) != (e2 == nil) || !bytes.Equal(j1, j2) {
+		same := bytes.Equal(j1, j2)
+		if !same && e1 == nil && e2 == nil {
+			// numbers are compared by value and kind (-0 and 0 are the same number)
+			x, ex := dgen.ParseJSON(j1)
+			y, ey := dgen.ParseJSON(j2)
+			same = ex == nil && ey == nil && dgen.Diff(x, y, false, true) == ""
+		}
+		if (e1 == nil) != (e2 == nil) || !same {
 			res.Fail = fmt.Sprintf("printed text denotes different data (profile %s)\nsrc: %s\nout: %s\n%s %v\n%s %v", c.Profile, c.Src, b, j1, e1, j2, e2)
 			return
 		}
+	}
+	// fill both sides with the witness data: expressions that stayed incomplete must mean the same
+	if c.Witness != "" && c.Path == "" && (c.Profile == "def" || c.Profile == "all" || c.Profile == "hidden" || c.Profile == "docs") {
+		fv := v.Unify(v.Context().CompileString(c.Witness))
+		fw := w.Unify(w.Context().CompileString(c.Witness))
+		if a, b := canon.Of(fv, 0), canon.Of(fw, 0); a != b {
+			res.Fail = fmt.Sprintf("after unifying with the witness %s the printed text means something else (profile %s)\nsrc: %s\nout: %s\ncanon(v & witness): %s\ncanon(w & witness): %s", c.Witness, c.Profile, c.Src, b, a, b)
+			return
+		}
+		res.Classes = append(res.Classes, "filled-with-witness")
 	}
 	res.NonTrivial = !concrete || strings.Contains(c.Src, " | ") || strings.Contains(c.Src, "close(") || strings.Contains(c.Src, "[string]") || strings.Contains(c.Src, "\\(") || strings.Contains(c.Src, " + ")
 	res.Key = c.Src + "\x00" + c.Profile + "\x00" + c.Path
@@ -115,11 +134,11 @@ func run(c Case) (res evid.Result) {
 func sameLabelNested(w *pgen.W, outer map[string]bool) bool { return pgen.SameLabelNested(w, outer) }
 
 func gen(t *rapid.T) Case {
-	g := &pgen.G{T: t, Tier: tier(), F: pgen.FRefTypes | pgen.FListComp | pgen.FStructDisj | pgen.FSelectors}
+	g := &pgen.G{T: t, Tier: tier(), F: pgen.FRefTypes | pgen.FListComp | pgen.FStructDisj | pgen.FSelectors | pgen.FDerived}
 	w := pgen.GenStructW(t, 2)
 	concrete := rapid.IntRange(0, 3).Draw(t, "concrete") > 0
 	st := g.Program(w, concrete)
-	c := Case{Src: st.Body(), Profile: rapid.SampledFrom([]string{"def", "all", "final", "concrete", "docs", "hidden"}).Draw(t, "profile")}
+	c := Case{Witness: pgen.WitnessCUE(w), Src: st.Body(), Profile: rapid.SampledFrom([]string{"def", "all", "final", "concrete", "docs", "hidden"}).Draw(t, "profile")}
 	if rapid.IntRange(0, 3).Draw(t, "sub") == 0 {
 		if ps := pgen.StructPaths(w); len(ps) > 0 {
 			c.Path = rapid.SampledFrom(ps).Draw(t, "path")
